@@ -71,6 +71,9 @@ def run(ctx):
     ctx.rule('C16.RANGE', lambda: _c11.rule_range(ctx), 4)
     from . import c19 as _c19p
     ctx.rule('C16.PORT', lambda: _c19p.rule_port(ctx), 2)
+    from . import c10 as _c10b, c17 as _c17b
+    ctx.rule('C16.BYHEIGHT', lambda: _c10b.rule_byheight(ctx, 'C16.BYHEIGHT'), 2)
+    ctx.rule('C16.CLIP', lambda: _c17b.rule_clip(ctx), 5)
     from .unbound import rule_unbound
     ctx.rule('C16.UNBOUND', lambda: rule_unbound(ctx, 'C16.UNBOUND', ('sess', 'util')), 50)
 
